@@ -2,7 +2,7 @@
 //!
 //! C17 has no ops of its own: it re-runs the PARALLEL operations of the other properties
 //! (`ops_complement` / `ops_union` on `al`, `ops_union` on `am` (C11), `gen_complete al` (C14),
-//! `q_degree_sequence` (C02), `pred_semicomplete` (C12), the seeded `am` generators (C15)) on inputs
+//! `q_degseq` (C02), `pred_unary` (C12), the seeded `am` generators (C15)) on inputs
 //! whose row count is below / equal / just above / far above the thread count and not a multiple of
 //! the chunk size; the orchestrator runs every line under many `taskset` CPU masks, repeated.
 //! Each handler compares with the model called with the observed thread count and with the
@@ -57,6 +57,40 @@ fn desc_tail_heavy(rng: &mut Rng, repr: &str, n: usize) -> Desc {
     Desc { repr: repr.to_string(), verts: (0..n).collect(), arcs, weights: vec![1; k] }
 }
 
+/// Semicomplete digraph with (2 times out of 3) ONE unordered pair left unjoined — placed in the
+/// trailing rows half of the time, where a dropped last chunk would hide it.
+fn semicomplete_minus(rng: &mut Rng, n: usize) -> Desc {
+    let mut arcs = vec![];
+    let hole = if n >= 2 && rng.chance(2, 3) {
+        let a = if rng.chance(1, 2) { n - 1 } else { rng.below(n) };
+        let mut b = if rng.chance(1, 2) && n >= 2 { n - 2 } else { rng.below(n) };
+        if b == a {
+            b = (a + 1) % n;
+        }
+        Some((a.min(b), a.max(b)))
+    } else {
+        None
+    };
+    for u in 0..n {
+        for v in (u + 1)..n {
+            if Some((u, v)) == hole {
+                continue;
+            }
+            match rng.below(3) {
+                0 => arcs.push((u, v)),
+                1 => arcs.push((v, u)),
+                _ => {
+                    arcs.push((u, v));
+                    arcs.push((v, u));
+                }
+            }
+        }
+    }
+    rng.shuffle(&mut arcs);
+    let k = arcs.len();
+    Desc { repr: "al".to_string(), verts: (0..n).collect(), arcs, weights: vec![1; k] }
+}
+
 pub fn gen(rng: &mut Rng, thorough: bool, emit: &mut dyn FnMut(String)) {
     let ns = orders(rng, thorough);
     for &n in &ns {
@@ -66,8 +100,10 @@ pub fn gen(rng: &mut Rng, thorough: bool, emit: &mut dyn FnMut(String)) {
         emit(format!("ops_complement {}", desc(rng, "al", n).to_v()));
         emit(format!("ops_complement {}", desc_tail_heavy(rng, "al", n).to_v()));
         // AdjacencyList::degree_sequence / is_semicomplete (C02 / C12 ops)
-        emit(format!("q_par {}", desc_tail_heavy(rng, "al", n).to_v()));
-        emit(format!("q_par {}", desc(rng, "al", n).to_v()));
+        emit(format!("q_degseq {}", desc_tail_heavy(rng, "al", n).to_v()));
+        emit(format!("q_degseq {}", desc(rng, "al", n).to_v()));
+        emit(format!("pred_unary {}", semicomplete_minus(rng, n).to_v()));
+        emit(format!("pred_unary {}", desc(rng, "al", n).to_v()));
         // AdjacencyList::union: equal and different orders (smaller operand ends inside a chunk)
         let m = 1 + rng.below(n);
         emit(format!("ops_union {} {}", desc_tail_heavy(rng, "al", n).to_v(), desc_tail_heavy(rng, "al", n).to_v()));
@@ -84,6 +120,7 @@ pub fn gen(rng: &mut Rng, thorough: bool, emit: &mut dyn FnMut(String)) {
         // seeded AdjacencyMap generators: valid and repeatable within one configuration (C15 ops)
         let seed = rng.next();
         emit(format!("rand_tournament am {n} {seed}"));
-        emit(format!("rand_er_p am {n} 0.3 {seed}"));
+        let p: f64 = *rng.pick(&[0.3, 0.5, 0.75, 0.0, 1.0]);
+        emit(format!("rand_er am {n} {} {} {seed}", p.to_bits(), (1.0 - p).to_bits()));
     }
 }
